@@ -121,3 +121,301 @@ c04_b3_node!(c04_b3_node_from_encoded_n2_leaf, 2, false);
 c04_b3_node!(c04_b3_node_from_encoded_n3_inner, 3, true);
 c04_b3_node!(c04_b3_node_from_encoded_n8_inner, 8, true);
 c04_b3_node!(c04_b3_node_from_encoded_n8_leaf, 8, false);
+
+// =====================================================================================
+// C04.T / C14.T: BTree::write_sorted_changes — the glue between the per-node work and the tree header (root address,
+// recorded depth). `Node::change` is replaced by a script of outcomes (nothing / the root split / the root under-full),
+// `BTree::fetch_root`, `Node::fetch_child`, `BTreeTable::write_node_plan` and `write_plan_remove_node` by recording
+// contracts (each decided on its own: C04.I/D/R, C04.B3). Real code: the loop over the operations, the growth of the tree
+// by one level (new root over the old root and the split-off half), the loss of a level (old root released exactly once,
+// its only child becomes the root), the recorded depth and root address, the final write of a changed root.
+// =====================================================================================
+use crate::btree::node::{Child, Separator, SeparatorInner};
+use crate::db::{RcKey, RcValue};
+pub static mut TR_SCRIPT: [u8; 2] = [0; 2]; // 0 nothing, 1 root split, 2 root emptied (under-full), 3 under-full but keeps a separator
+pub static mut TR_CALLS: usize = 0;
+pub static mut TR_DEPTH_SEEN: [u32; 2] = [0; 2];
+pub static mut TR_LEFT: [usize; 2] = [0; 2];
+pub static mut TR_MARK: bool = false;
+pub static mut TR_MOVED: bool = false;
+pub static mut TR_WRITES: usize = 0;
+pub static mut TR_W_ID: [u64; 4] = [0; 4]; // node_id of each recorded write (0 = None)
+pub static mut TR_W_RET: [u64; 4] = [0; 4];
+pub static mut TR_W_NODE: [std::mem::MaybeUninit<Node>; 4] = [std::mem::MaybeUninit::uninit(), std::mem::MaybeUninit::uninit(), std::mem::MaybeUninit::uninit(), std::mem::MaybeUninit::uninit()];
+pub static mut TR_REMOVED: [u64; 2] = [0; 2];
+pub static mut TR_REMOVALS: usize = 0;
+
+fn tr_sep(k: u8, a: u64) -> Separator { Separator { modified: false, separator: Some(SeparatorInner { key: vec![k], value: Address::from_u64(a) }) } }
+fn tr_root() -> Node {
+	let mut n = Node { separators: Default::default(), children: Default::default(), changed: false };
+	n.separators[0] = tr_sep(40, 41);
+	n.children[0] = Child { moved: false, entry_index: Some(Address::from_u64(200)) };
+	n.children[1] = Child { moved: false, entry_index: Some(Address::from_u64(201)) };
+	n
+}
+fn tr_child() -> Node {
+	let mut n = Node { separators: Default::default(), children: Default::default(), changed: false };
+	let mut j = 0;
+	while j < 4 { n.separators[j] = tr_sep(10 + j as u8, 11 + j as u64); j += 1; }
+	n
+}
+pub fn stub_fetch_root<Q: LogQuery>(root: Address, _t: TablesRef, _log: &Q) -> Result<Node> {
+	if root == NULL_ADDRESS { Ok(Node::default()) } else { assert!(root.as_u64() == 100, "C04.T the root is read at the recorded root address"); Ok(tr_root()) }
+}
+pub fn stub_fetch_child_t<Q: LogQuery>(n: &Node, i: usize, _values: TablesRef, _log: &Q) -> Result<Option<Node>> {
+	match n.children[i].entry_index { Some(a) => { assert!(a.as_u64() == 200, "harness: only child 200 is read"); Ok(Some(tr_child())) }, None => Ok(None) }
+}
+pub fn stub_change(n: &mut Node, parent: Option<(&mut Node, usize)>, depth: u32, changes: &mut &[Operation<RcKey, RcValue>], _b: TablesRef, _l: &mut LogWriter) -> Result<(Option<(Separator, Child)>, bool)> {
+	assert!(parent.is_none(), "harness: the root has no parent");
+	unsafe {
+		let k = TR_CALLS;
+		assert!(k < 2, "C04.T one pass over the root per remaining operation");
+		TR_CALLS += 1;
+		TR_DEPTH_SEEN[k] = depth;
+		TR_LEFT[k] = changes.len();
+		match TR_SCRIPT[k] {
+			1 => { n.changed = true; Ok((Some((tr_sep(50, 777), Child { moved: true, entry_index: Some(Address::from_u64(900)) })), false)) },
+			2 => {
+				let mut j = 0;
+				while j < ORDER { n.separators[j] = Separator { modified: true, separator: None }; j += 1; }
+				let mut j = 1;
+				while j < ORDER_CHILD { n.children[j] = Child { moved: true, entry_index: None }; j += 1; }
+				n.children[0] = Child { moved: false, entry_index: Some(Address::from_u64(200)) };
+				n.changed = true;
+				Ok((None, true))
+			},
+			3 => { n.changed = true; Ok((None, true)) },
+			_ => { if TR_MARK { n.changed = true; } Ok((None, false)) },
+		}
+	}
+}
+pub fn stub_write_node_plan_t(_t: TablesRef, node: Node, _w: &mut LogWriter, node_id: Option<Address>) -> Result<Option<Address>> {
+	// as the real function: a node that carries no change is not written
+	let mut changed = node.changed;
+	let mut j = 0;
+	while j < ORDER_CHILD { if node.children[j].moved { changed = true; } j += 1; }
+	let mut j = 0;
+	while j < ORDER { if node.separators[j].modified { changed = true; } j += 1; }
+	if !changed { std::mem::forget(node); return Ok(None) }
+	unsafe {
+		let k = TR_WRITES;
+		assert!(k < 4, "harness: at most four node writes");
+		TR_WRITES += 1;
+		TR_W_ID[k] = node_id.map(|a| a.as_u64()).unwrap_or(0);
+		TR_W_NODE[k].as_mut_ptr().write(node);
+		// a new node gets a fresh address; a rewritten node stays in place or moves to a fresh address (size class change)
+		let ret = match node_id { None => 500 + k as u64, Some(_) => if TR_MOVED { 600 + k as u64 } else { 0 } };
+		TR_W_RET[k] = ret;
+		Ok(if ret == 0 { None } else { Some(Address::from_u64(ret)) })
+	}
+}
+pub fn stub_remove_node_t(_t: TablesRef, _w: &mut LogWriter, node_index: Address) -> Result<()> {
+	unsafe { assert!(TR_REMOVALS < 2, "harness: at most two releases"); TR_REMOVED[TR_REMOVALS] = node_index.as_u64(); TR_REMOVALS += 1; }
+	Ok(())
+}
+
+/// `has_root`: the tree has a root node at address 100 (else it is empty); `script`: outcome of each pass over the root.
+fn root_case(has_root: bool, nops: usize, script: [u8; 2]) {
+	let d0: u32 = kani::any();
+	kani::assume(d0 <= 6 && (has_root || d0 == 0) && ((script[0] != 2 && script[1] != 2) || d0 >= 1));
+	unsafe {
+		TR_SCRIPT = script; TR_CALLS = 0; TR_MARK = kani::any(); TR_MOVED = kani::any(); TR_WRITES = 0; TR_REMOVALS = 0;
+	}
+	let mut tree = BTree::new(if has_root { Some(Address::from_u64(100)) } else { None }, d0, 1);
+	let tables: [ValueTable; 0] = [];
+	let compression = crate::compress::Compress::new(crate::compress::CompressionType::NoCompression, u32::MAX);
+	let values = TablesRef { tables: &tables, compression: &compression, col: 0, preimage: false, ref_counted: false };
+	let overlays = crate::log::verif_kani::new_overlays();
+	let mut w = LogWriter::new(&overlays, 1);
+	let ops: [Operation<RcKey, RcValue>; 2] = [Operation::Dereference(vec![1u8].into()), Operation::Dereference(vec![2u8].into())];
+	tree.write_sorted_changes(&ops[..nops], values, &mut w).unwrap();
+	unsafe {
+		assert!(TR_CALLS == nops, "C04.T every operation of the change set is handed to the root once");
+		assert!(TR_DEPTH_SEEN[0] == d0 && TR_LEFT[0] == nops, "C04.T the first pass runs at the recorded depth over the whole change set");
+		let moved = TR_MOVED;
+		match (script[0], nops) {
+			(1, 1) => {
+				// one more level: new root = [old root | promoted separator | split-off half]
+				assert!(tree.depth == d0 + 1, "C04.T a split of the root adds one level to the recorded depth");
+				assert!(TR_REMOVALS == 0, "C04.T growing releases no node");
+				assert!(TR_WRITES == 2, "C04.T the old root half and the new root are written");
+				assert!(TR_W_ID[0] == if has_root { 100 } else { 0 }, "C04.T the left half keeps the old root's address (a first root gets a fresh one)");
+				let left_at = if TR_W_RET[0] != 0 { TR_W_RET[0] } else { 100 };
+				assert!(TR_W_ID[1] == 0, "C04.T the new root is a new node");
+				let nr = TR_W_NODE[1].assume_init_ref();
+				assert!(nr.children[0].entry_index.map(|a| a.as_u64()) == Some(left_at), "C04.T the new root's first child is the old root where it was written");
+				assert!(nr.children[1].entry_index.map(|a| a.as_u64()) == Some(900), "C04.T the new root's second child is the split-off half");
+				assert!(nr.children[2].entry_index.is_none() && nr.separators[1].separator.is_none(), "C04.T the new root has exactly one separator and two children");
+				let s = nr.separators[0].separator.as_ref().unwrap();
+				assert!(s.key.len() == 1 && s.key[0] == 50 && s.value.as_u64() == 777, "C04.T the new root's separator is the promoted one");
+				assert!(tree.root_index.map(|a| a.as_u64()) == Some(TR_W_RET[1]) && TR_W_RET[1] != 0, "C04.T the recorded root address is where the new root was written");
+			},
+			(2, 1) => {
+				assert!(tree.depth == d0 - 1, "C04.T a root left without separator gives up one level");
+				assert!(TR_REMOVALS == 1 && TR_REMOVED[0] == 100, "C14.T the replaced root node is released exactly once");
+				assert!(tree.root_index.map(|a| a.as_u64()) == Some(200), "C04.T the only child of the emptied root becomes the root");
+				assert!(TR_WRITES == 0, "C04.T the promoted child is unchanged and not rewritten");
+			},
+			(3, 1) => {
+				assert!(tree.depth == d0 && TR_REMOVALS == 0, "C04.T an under-full root that still has a separator stays the root");
+				assert!(TR_WRITES == 1 && TR_W_ID[0] == 100, "C04.T a changed root is rewritten at its address");
+				assert!(tree.root_index.map(|a| a.as_u64()) == Some(if moved { TR_W_RET[0] } else { 100 }), "C04.T the recorded root address follows the root if it moved");
+			},
+			(0, 1) => {
+				assert!(tree.depth == d0 && TR_REMOVALS == 0, "C04.T depth and nodes are untouched without split or underflow");
+				if has_root {
+					assert!(TR_WRITES == if TR_MARK { 1 } else { 0 }, "C04.T the root is written exactly when it changed");
+					assert!(tree.root_index.map(|a| a.as_u64()) == Some(if TR_MARK && moved { TR_W_RET[0] } else { 100 }), "C04.T the recorded root address follows the root if it moved");
+				} else {
+					// a fresh (default) root counts as changed: the first root node is created
+					assert!(TR_WRITES == 1 && TR_W_ID[0] == 0 && tree.root_index.map(|a| a.as_u64()) == Some(TR_W_RET[0]), "C04.T the first root node is created and recorded");
+				}
+			},
+			(0, 2) => {
+				assert!(TR_DEPTH_SEEN[1] == d0 && TR_LEFT[1] == 1, "C04.T the second pass sees the remaining operation at the same depth");
+				if script[1] == 2 {
+					assert!(tree.depth == d0 - 1 && TR_REMOVALS == 1 && TR_REMOVED[0] == 100 && tree.root_index.map(|a| a.as_u64()) == Some(200), "C14.T a level lost on a later operation releases the old root");
+				}
+			},
+			(1, 2) => {
+				assert!(TR_DEPTH_SEEN[1] == d0 + 1 && TR_LEFT[1] == 1, "C04.T after a root split the next pass runs one level deeper");
+			},
+			_ => {},
+		}
+	}
+	kani::cover!(unsafe { TR_CALLS } == nops);
+	std::mem::forget(tree); std::mem::forget(ops); std::mem::forget(w); std::mem::forget(overlays);
+}
+
+macro_rules! c04_t {
+	($name:ident, $has:expr, $n:expr, $script:expr) => {
+		crate::verif_env! {
+			#[kani::proof]
+			#[kani::unwind(12)]
+			#[kani::stub(crate::btree::btree::BTree::fetch_root, stub_fetch_root)]
+			#[kani::stub(crate::btree::node::Node::fetch_child, stub_fetch_child_t)]
+			#[kani::stub(crate::btree::node::Node::change, stub_change)]
+			#[kani::stub(crate::btree::BTreeTable::write_node_plan, stub_write_node_plan_t)]
+			#[kani::stub(crate::btree::BTreeTable::write_plan_remove_node, stub_remove_node_t)]
+			fn $name() { root_case($has, $n, $script) }
+		}
+	};
+}
+c04_t!(c04_t_root_split_adds_level, true, 1, [1, 0]);
+c04_t!(c04_t_first_root_split, false, 1, [1, 0]);
+c04_t!(c04_t_root_emptied_loses_level, true, 1, [2, 0]);
+c04_t!(c04_t_root_underfull_keeps_level, true, 1, [3, 0]);
+c04_t!(c04_t_root_plain, true, 1, [0, 0]);
+c04_t!(c04_t_first_root_created, false, 1, [0, 0]);
+c04_t!(c04_t_two_ops_second_loses_level, true, 2, [0, 2]);
+c04_t!(c04_t_two_ops_split_then_deeper, true, 2, [1, 0]);
+
+// =====================================================================================
+// C04.H: the tree header record (BTreeChangeSet::write_plan): after the changes of a commit were applied to the tree, the
+// header entry at its fixed address is rewritten exactly when the root address or the depth changed, with exactly the new
+// (root, depth) in the layout `btree_header` reads; `ops` grows by the number of operations.
+// `BTree::open` / `BTree::write_sorted_changes` by contract (any old and any new (root, depth)), the value-table write is captured.
+// =====================================================================================
+pub static mut HD_OLD: (u64, u32) = (0, 0);
+pub static mut HD_NEW: (u64, u32) = (0, 0);
+pub static mut HD_WRITES: usize = 0;
+pub static mut HD_ADDR: u64 = 0;
+pub static mut HD_LEN: usize = 0;
+pub static mut HD_BYTES: [u8; 12] = [0; 12];
+pub static mut HD_IS_SET: bool = false;
+pub fn stub_tree_open<Q: LogQuery>(_values: TablesRef, _log: &Q, record_id: u64) -> Result<BTree> {
+	let (r, d) = unsafe { HD_OLD };
+	Ok(BTree::new(if r == 0 { None } else { Some(Address::from_u64(r)) }, d, record_id))
+}
+pub fn stub_write_sorted_changes(t: &mut BTree, _changes: &[Operation<RcKey, RcValue>], _b: TablesRef, _l: &mut LogWriter) -> Result<()> {
+	let (r, d) = unsafe { HD_NEW };
+	t.root_index = if r == 0 { None } else { Some(Address::from_u64(r)) };
+	t.depth = d;
+	Ok(())
+}
+pub fn stub_write_header_value<K, V: AsRef<[u8]>>(_key: &TableKey, _t: TablesRef, address: Address, c: &Operation<K, V>, _l: &mut LogWriter,
+	_s: Option<&crate::stats::ColumnStats>, _rc: bool) -> Result<(Option<crate::index::PlanOutcome>, Option<Address>)> {
+	unsafe {
+		HD_WRITES += 1;
+		HD_ADDR = address.as_u64();
+		if let Operation::Set(_, v) = c {
+			HD_IS_SET = true;
+			let b = v.as_ref();
+			HD_LEN = b.len();
+			let mut i = 0;
+			while i < 12 { if i < b.len() { HD_BYTES[i] = b[i]; } i += 1; }
+		}
+	}
+	Ok((Some(crate::index::PlanOutcome::Written), None))
+}
+crate::verif_env! {
+	#[kani::proof]
+	#[kani::unwind(14)]
+	#[kani::stub(crate::btree::btree::BTree::open, stub_tree_open)]
+	#[kani::stub(crate::btree::btree::BTree::write_sorted_changes, stub_write_sorted_changes)]
+	#[kani::stub(crate::column::Column::write_existing_value_plan, stub_write_header_value)]
+	fn c04_h_header_follows_root_and_depth() {
+		unsafe { HD_OLD = kani::any(); HD_NEW = kani::any(); HD_WRITES = 0; HD_IS_SET = false; HD_LEN = 0; }
+		let table = BTreeTable { id: 0, tables: RwLock::new(Vec::new()), ref_counted: false,
+			compression: crate::compress::Compress::new(crate::compress::CompressionType::NoCompression, u32::MAX) };
+		let mut cs = commit_overlay::BTreeChangeSet::new(0);
+		let overlays = crate::log::verif_kani::new_overlays();
+		let mut w = LogWriter::new(&overlays, 1);
+		let mut ops: u64 = 5;
+		cs.write_plan(&table, &mut w, &mut ops).unwrap();
+		unsafe {
+			let changed = HD_OLD != HD_NEW;
+			assert!(HD_WRITES == if changed { 1 } else { 0 }, "C04.H the header is rewritten exactly when root address or depth changed");
+			if changed {
+				assert!(HD_ADDR == HEADER_ADDRESS.as_u64() && HD_IS_SET && HD_LEN == 12, "C04.H the header is a 12-byte value set at the fixed header address");
+				let root = u64::from_le_bytes([HD_BYTES[0], HD_BYTES[1], HD_BYTES[2], HD_BYTES[3], HD_BYTES[4], HD_BYTES[5], HD_BYTES[6], HD_BYTES[7]]);
+				let depth = u32::from_le_bytes([HD_BYTES[8], HD_BYTES[9], HD_BYTES[10], HD_BYTES[11]]);
+				assert!(root == HD_NEW.0 && depth == HD_NEW.1, "C04.H the header records the new root address and the new depth");
+			}
+		}
+		assert!(ops == 5, "C04.H an empty change set counts no operation");
+		kani::cover!(unsafe { HD_WRITES } == 1 && unsafe { HD_OLD.0 == HD_NEW.0 });
+		kani::cover!(unsafe { HD_WRITES } == 0);
+		std::mem::forget(cs); std::mem::forget(table); std::mem::forget(w); std::mem::forget(overlays);
+	}
+}
+
+/// The header reader inverts the header writer: `btree_header` over the bytes `write_header` produced.
+pub static mut HR_BYTES: [u8; 12] = [0; 12];
+pub static mut HR_PRESENT: bool = false;
+pub fn stub_get_header_value<Q: LogQuery>(_key: TableKeyQuery, address: Address, _tables: TablesRef, _log: &Q) -> Result<Option<(u8, u32, Value)>> {
+	assert!(address == HEADER_ADDRESS, "C04.H the header is read at the fixed header address");
+	if !unsafe { HR_PRESENT } { return Ok(None) }
+	let mut v = Vec::with_capacity(12);
+	let mut i = 0;
+	while i < 12 { v.push(unsafe { HR_BYTES[i] }); i += 1; }
+	Ok(Some((address.size_tier(), 1, v)))
+}
+crate::verif_env! {
+	#[kani::proof]
+	#[kani::unwind(14)]
+	#[kani::stub(crate::column::Column::get_value, stub_get_header_value)]
+	fn c04_h_header_codec_roundtrip() {
+		let root: u64 = kani::any();
+		let depth: u32 = kani::any();
+		let mut e = Entry::empty();
+		e.write_header(&BTreeHeader { root: Address::from_u64(root), depth });
+		{
+			let enc = e.encoded.inner_mut();
+			assert!(enc.len() == 12, "C04.H the encoded header has 12 bytes");
+			let mut i = 0;
+			while i < 12 { unsafe { HR_BYTES[i] = enc[i]; } i += 1; }
+		}
+		unsafe { HR_PRESENT = kani::any(); }
+		let tables: [ValueTable; 0] = [];
+		let compression = crate::compress::Compress::new(crate::compress::CompressionType::NoCompression, u32::MAX);
+		let values = TablesRef { tables: &tables, compression: &compression, col: 0, preimage: false, ref_counted: false };
+		let h = BTreeTable::btree_header(&crate::log::verif_kani::OvView, values).unwrap();
+		if unsafe { HR_PRESENT } {
+			assert!(h.root.as_u64() == root && h.depth == depth, "C04.H the header reader returns the root address and depth that were written");
+		} else {
+			assert!(h.root == NULL_ADDRESS && h.depth == 0, "C04.H a missing header is an empty tree");
+		}
+		std::mem::forget(e);
+	}
+}
